@@ -85,3 +85,81 @@ def F02order(f):
 def F15overlap(f):
     """C15 is not claimed for inputs in a recorded C02 overlap class"""
     return f.get("class") in ("detect-projection", "infer-prefix", "infer-stops-early") and _only_known_overlaps(f)
+
+
+# ---- C16
+_OBJ_CHILDREN = ("Date", "Time", "URL", "UUID", "EmailAddress", "Geometry", "IPAddress", "Path")
+
+
+def _series(f):
+    from . import streams
+    import warnings
+    with warnings.catch_warnings():
+        warnings.simplefilter("ignore")
+        return streams.materialise({"recipe": f["recipe"]})
+
+
+def _object_like(s):
+    from pandas.api import types as pdt
+    return bool(pdt.is_object_dtype(s) or (pdt.is_string_dtype(s) and not isinstance(s.dtype, __import__("pandas").CategoricalDtype)))
+
+
+def F16b(f):
+    """a child of Object that does not test the dtype (Date, Time, URL, ...) contains a series whose dtype
+    Object does not accept (categorical of dates etc.)"""
+    if f.get("backend", "pandas") != "pandas":
+        return False
+    cl = f.get("class", "")
+    if cl.startswith("closure:") and f.get("parent") == "Object" and f.get("child") in _OBJ_CHILDREN:
+        return not _object_like(_series(f))
+    return False
+
+
+def F16c(f):
+    """an existing relative pathlib.Path is a File (and an Image) but not a Path"""
+    import pathlib
+    if f.get("class") != "closure:File->Path":
+        return False
+    vals = [v for v in _series(f) if isinstance(v, pathlib.Path)]
+    return any(v.exists() and not v.is_absolute() for v in vals)
+
+
+# ---- C11
+def F11a(f):
+    """Date / Time / URL / UUID / EmailAddress test the class of the FIRST row only (head(1)): membership,
+    and with it detect/infer, depends on which row comes first in a column of mixed classes"""
+    if f.get("backend", "pandas") != "pandas":
+        return False
+    head_types = {"Date", "Time", "URL", "UUID", "EmailAddress"}
+    if f.get("kind") == "membership" and set(f.get("types", [])) <= head_types and f.get("types"):
+        s = _series(f)
+        kinds = {type(v).__name__ for v in s.dropna()}
+        return len(kinds) > 1 and "permuted" in f.get("variant", "") or "reversed" in f.get("variant", "")
+    return False
+
+
+def F11b(f):
+    """String looks at the class of the first five rows only; a bytes value after five strings is accepted
+    (pandas 3 astype(str) decodes bytes), in front it is not"""
+    if f.get("backend", "pandas") != "pandas" or f.get("kind") != "membership" or f.get("types") != ["String"]:
+        return False
+    s = _series(f)
+    return any(isinstance(v, bytes) for v in s) and sum(isinstance(v, str) for v in s) >= 5
+
+
+def F11np(f):
+    """numpy backend: Object's not_excluded_type looks at array[0] only ([True, 1] vs [1, True])"""
+    if f.get("backend") != "numpy":
+        return False
+    s = _series(f)
+    vals = [v for v in s if v is not None]
+    return len({type(v) for v in vals}) > 1
+
+
+def F11list(f):
+    """python-list backend: guards evaluate element tests with any()/all() and raise (DispatchError) or not
+    depending on which element comes first in a column of mixed classes"""
+    if f.get("backend") != "list":
+        return False
+    s = _series(f)
+    return len({type(v) for v in s}) > 1
